@@ -351,7 +351,7 @@ int main(int argc, char** argv) {
     uint64_t cnt = devCount(n - 1, D);
     R.space("theta-lattice:dev<=" + str(D) + ":n" + str(n) + ":bases3:methods3:null2", cnt * 18, [=](uint64_t idx, vf::Case& c) {
       int m = (int)(idx % 3) + 1; bool an = (idx / 3) % 2; int base = (int)((idx / 6) % 3); uint64_t k = idx / 18;
-      thetaCase(m, an, devVector(n - 1, D, base, k), k < 40, c, idx % 50021 == 7);
+      thetaCase(m, an, devVector(n - 1, D, base, k), k < (uint64_t)(n <= 9 ? 40 : 8), c, idx % 50021 == 7);   // path/history/copy checks on the first vectors only (cost)
     }, 10.0);
   }
   // (2) probability vectors
